@@ -150,7 +150,7 @@ Section Inv2.
 
   Lemma step_G st op : (NN -> eop_nonneg op) -> Inv6 st -> Inv6 (step o st op).
   Proof.
-    intros Hop H. destruct op as [n|ns|]; cbn [step].
+    intros Hop H. destruct op as [n|ns| |ns]; cbn [step]; [| | |eapply view_Inv6; [..|exact (fold_offer_G ns st Hop H)]; reflexivity].
     - assert (H1 : Inv6 (run_quiet o (offer o st n))) by (apply (pump_G o NN Hsig), offer_G; [exact Hop|exact H]).
       destruct (is_wfr o).
       + eapply view_Inv6; [..|apply (pump_G o NN Hsig), flush_cur_G, H1]; reflexivity.
@@ -220,7 +220,7 @@ Lemma exporter_persistent_general_l o outs ops :
   o_sig o <> Profiles -> valid_batch o -> Forall eop_nonneg ops -> is_storage o = true ->
   let st := run_exporter o outs ops in
   lget (ExpSent (o_sig o)) (s_led st) + lget (ExpFailed (o_sig o)) (s_led st) + lget (ExpEnqFailed (o_sig o)) (s_led st)
-  = s_offered st - s_stored st + s_kept st + s_wfr_failed st.
+  = s_offered st - s_stored st + s_kept st.
 Proof.
   intros Hsig Hb F Hst st.
   pose proof (exporter_excess_l o outs ops Hsig Hb F) as A. cbn zeta in A. fold st in A.
@@ -230,9 +230,9 @@ Qed.
 Lemma exporter_balance_persistent_general_l o outs ops :
   o_sig o <> Profiles -> valid_batch o -> Forall eop_nonneg ops -> is_storage o = true ->
   let st := run_exporter o outs ops in
-  s_wfr_failed st = 0 -> s_kept st = 0 -> balance o st.
+  s_kept st = 0 -> balance o st.
 Proof.
-  intros Hsig Hb F Hst st Hw Hk.
+  intros Hsig Hb F Hst st Hk.
   pose proof (exporter_persistent_general_l o outs ops Hsig Hb F Hst) as A. cbn zeta in A. fold st in A.
   unfold balance. lia.
 Qed.
